@@ -118,6 +118,12 @@ class CFG(object):
         if isinstance(expr, ast.UnaryOp) and isinstance(expr.op, ast.Not):
             t, f = self._test(expr.operand, frontier, handlers)
             return f, t
+        if isinstance(expr, ast.IfExp):
+            # `X if T else Y` as a test: T decides which of X / Y is the test
+            tt, tf = self._test(expr.test, frontier, handlers)
+            bt, bf = self._test(expr.body, tt, handlers)
+            ot, of = self._test(expr.orelse, tf, handlers)
+            return bt + ot, bf + of
         n = self._new("test", expr)
         self._connect(frontier, n)
         if self.exc_edges and handlers and self._may_raise(expr):
